@@ -1,2 +1,230 @@
-def validate(run, tier):
-    return
+"""impl -> spec half of C01: seeded random programs beyond the TLC bounds are executed by the
+real Pipeline, recorded at the orchestrator seam and batch-validated by TLC against
+PipelineTrace.tla (every event must be explained by the spec action with the logged state)."""
+from __future__ import annotations
+
+import ast
+import json
+import os
+import random
+import re
+import uuid
+from typing import Any, Dict, List, Optional
+
+from .. import core, tlc
+from ..gamma import TEMPLATE_PREFIX, g_ctx, g_data, g_prog, prog_key
+from ..pool import pmap
+
+KEYS = ["value", "factor", "addend", "a", "b", "w", "t_values"]
+FREE = ["value", "factor", "addend", "a", "b", "w"]
+BOUND = 40000
+
+ABSENT = {"t": "absent", "v": 0, "items": [], "bt": "", "d": 0}
+
+
+def num(n):
+    return {"t": "n", "v": int(n), "items": [], "bt": "", "d": 0}
+
+
+def lst(xs):
+    return {"t": "l", "v": 0, "items": [int(x) for x in xs], "bt": "", "d": 0}
+
+
+class Unabstractable(Exception):
+    pass
+
+
+def _int(x) -> int:
+    if isinstance(x, bool) or not isinstance(x, (int, float)) or float(x) != int(x) or abs(x) > BOUND:
+        raise Unabstractable(repr(x))
+    return int(x)
+
+
+def alpha_val(v: Any) -> Dict[str, Any]:
+    if isinstance(v, (int, float)) and not isinstance(v, bool):
+        return num(_int(v))
+    if isinstance(v, list):
+        return lst([_int(x) for x in v])
+    if isinstance(v, str) and v.startswith(TEMPLATE_PREFIX):
+        d = 0
+        while v.startswith(TEMPLATE_PREFIX):
+            v = v[len(TEMPLATE_PREFIX):]
+            d += 1
+        try:
+            base = ast.literal_eval(v)
+        except Exception as exc:
+            raise Unabstractable(v) from exc
+        b = alpha_val(base)
+        return {"t": "s", "v": b["v"], "items": b["items"], "bt": b["t"], "d": d}
+    raise Unabstractable(repr(v))
+
+
+def alpha_ctx(c: Dict[str, Any]) -> Dict[str, Any]:
+    if any(k not in KEYS for k in c):
+        raise Unabstractable(f"key outside alphabet: {sorted(c)}")
+    return {k: (alpha_val(c[k]) if k in c else dict(ABSENT)) for k in KEYS}
+
+
+def alpha_data(d) -> Dict[str, Any]:
+    if d[0] == "none":
+        return {"ty": "none", "v": 0, "items": []}
+    if d[0] == "float":
+        return {"ty": "float", "v": _int(d[1]), "items": []}
+    if d[0] == "coll":
+        return {"ty": "coll", "v": 0, "items": [_int(x) for x in d[1]]}
+    raise Unabstractable(repr(d))
+
+
+def node(kind, cfg=None, k1="", k2="", sw=()):
+    return {"kind": kind, "cfg": dict(cfg or {}), "k1": k1, "k2": k2, "sw": list(sw)}
+
+
+def gen_program(rng: random.Random, maxlen: int = 8) -> Dict[str, Any]:
+    """Type-directed random program over the whole library with parameter values outside the
+    TLC value set; ~15% of the choices ignore the current data type (to hit the type gate)."""
+    n = rng.randint(1, maxlen)
+    ty = rng.choice(["none", "none", "float", "coll"])
+    idata = {"none": {"ty": "none", "v": 0, "items": []},
+             "float": {"ty": "float", "v": rng.randint(-6, 6), "items": []},
+             "coll": {"ty": "coll", "v": 0, "items": [rng.randint(-4, 4) for _ in range(rng.randint(0, 3))]}}[ty]
+    ictx = {}
+    for k in FREE:
+        r = rng.random()
+        if r < 0.35:
+            ictx[k] = num(rng.randint(-5, 9))
+        elif r < 0.42:
+            ictx[k] = lst([rng.randint(1, 4) for _ in range(rng.randint(1, 3))])
+        else:
+            ictx[k] = dict(ABSENT)
+    ictx["t_values"] = dict(ABSENT)
+    prog = []
+    for _ in range(n):
+        t = ty if rng.random() > 0.15 else rng.choice(["none", "float", "coll"])
+        if rng.random() < 0.22:
+            kind = rng.choice(["Rename", "Delete", "Template"])
+            k1, k2 = rng.choice(FREE), rng.choice(FREE)
+            prog.append(node(kind, k1=k1, k2=k2 if kind != "Delete" else ""))
+            continue
+        if t == "none":
+            kind = rng.choice(["Src", "Src", "SrcDef", "Src0", "SweepSrc", "SweepSrcCtx"])
+        elif t == "float":
+            kind = rng.choice(["Mul", "Mul", "MulDef", "Add", "Sq", "Probe", "Probe", "Sink", "CtxW",
+                               "SweepMul", "CtxWBad", "Boom"] if rng.random() < 0.2 else
+                              ["Mul", "MulDef", "Add", "Sq", "Probe", "Sink", "CtxW", "SweepMul"])
+        else:
+            kind = rng.choice(["SliceMul", "SliceMulDef", "SliceProbe", "SliceProbe", "Sum"])
+        cfg = {}
+        pname = {"Src": "value", "SrcDef": "value", "Mul": "factor", "MulDef": "factor",
+                 "SliceMul": "factor", "SliceMulDef": "factor", "Add": "addend"}.get(kind)
+        if pname and rng.random() < 0.45:
+            cfg[pname] = rng.randint(-3, 6)
+        if rng.random() < 0.03 and kind not in ("SweepSrc", "SweepMul", "SweepSrcCtx"):
+            cfg["bogus"] = 1
+        k1 = ""
+        if kind in ("Probe", "SliceProbe"):
+            k1 = rng.choice(FREE) if rng.random() > 0.03 else ""
+        if kind == "SweepSrcCtx":
+            k1 = rng.choice(FREE)
+        sw = [rng.randint(1, 4) for _ in range(rng.randint(1, 3))] if kind in ("SweepSrc", "SweepMul") else []
+        prog.append(node(kind, cfg, k1, "", sw))
+        ty = {"Src": "float", "SrcDef": "float", "Src0": "float", "SweepSrc": "coll", "SweepSrcCtx": "coll",
+              "SweepMul": "coll", "Sum": "float", "SliceMul": "coll", "SliceMulDef": "coll"}.get(kind, ty if kind in ("Probe", "Sink", "SliceProbe") else "float" if kind in ("Mul", "MulDef", "Add", "Sq", "CtxW", "CtxWBad", "Boom") else ty)
+    return {"prog": prog, "ictx": ictx, "idata": idata}
+
+
+def record_chunk(cases: List[Dict[str, Any]]):
+    from ..seams import run_nodes
+
+    out = []
+    for case in cases:
+        obs = run_nodes(g_prog(case["prog"]), g_data(case["idata"]), g_ctx(case["ictx"]))
+        if obs["construct_error"]:
+            out.append(("rejected", case, obs["construct_error"]))
+            continue
+        try:
+            events: List[Dict[str, Any]] = []
+            if obs["started"] >= 1:
+                events.append({"ev": "built"})
+            n_ok = len(obs["oks"])
+            for i, (d, c) in enumerate(obs["oks"]):
+                last = (i == n_ok - 1) and obs["raised"] is None
+                events.append({"ev": "ok", "data": alpha_data(d), "ctx": alpha_ctx(c), "last": last})
+            if obs["raised"] is not None:
+                events.append({"ev": "buildfail"} if obs["started"] == 0 else {"ev": "fail", "at": obs["started"]})
+            out.append(("trace", {"prog": case["prog"], "ictx": case["ictx"], "idata": case["idata"],
+                                   "events": events}, obs["raised"]))
+        except Unabstractable as exc:
+            out.append(("skipped", case, str(exc)))
+    return out
+
+
+def run_batch(traces: List[Dict[str, Any]], cfg: str = "PipelineTrace") -> tuple:
+    """Validate a batch with one TLC run. Returns (TLCResult, set of rejected 1-based ids)."""
+    tlc.WORK.mkdir(parents=True, exist_ok=True)
+    path = tlc.WORK / f"traces-{uuid.uuid4().hex[:8]}.json"
+    path.write_text(json.dumps(traces))
+    try:
+        res = tlc.run_tlc("PipelineTrace", cfg, workers=1, env={"TRACE_FILE": str(path)}, timeout=1800)
+    finally:
+        path.unlink(missing_ok=True)
+    if res.violated:
+        return res, None
+    m = re.search(r'<<"ACCEPTED", (\d+), (\d+)>>', res.stdout)
+    if not m and "MATCHED" not in res.stdout:
+        raise core.MachineryError("trace validation produced no verdict:\n" + res.stdout[-2000:])
+    rej = set()
+    m2 = re.search(r'<<"REJECTED", \{([^}]*)\}>>', res.stdout)
+    if m2:
+        rej = {int(x) for x in m2.group(1).split(",") if x.strip()}
+    return res, rej
+
+
+def diagnose(trace: Dict[str, Any]) -> str:
+    res, _ = run_batch([trace], cfg="PipelineTraceDiag")
+    m = re.search(r'<<"MATCHED", (-?\d+)>>', res.stdout)
+    k = int(m.group(1)) if m else -1
+    ev = trace["events"]
+    nxt = ev[k] if 0 <= k < len(ev) else None
+    return f"spec explains the first {k} of {len(ev)} recorded events; next event not a spec behaviour: {json.dumps(nxt)[:400]}"
+
+
+def validate(run: core.Run, tier: str) -> None:
+    n = 1500 if tier == "quick" else 25000
+    rng = random.Random(core.seed() * 7919 + 17)
+    cases = [gen_program(rng) for _ in range(n)]
+    traces, skipped, rejected = [], 0, 0
+    for chunk in pmap(record_chunk, cases, chunk=250):
+        for kind, payload, info in chunk:
+            if kind == "trace":
+                traces.append(payload)
+            elif kind == "skipped":
+                skipped += 1
+            else:
+                rejected += 1
+    if len(traces) < n // 3:
+        raise core.MachineryError(f"too few abstractable traces: {len(traces)} of {n}")
+    deep = sum(1 for t in traces if sum(1 for e in t["events"] if e["ev"] == "ok") >= 3)
+    total_rej = []
+    for i in range(0, len(traces), 3000):
+        batch = traces[i:i + 3000]
+        res, rej = run_batch(batch)
+        run.add_tlc(res)
+        if rej is None:
+            # an invariant / action property of the spec failed on a state bound to observed values
+            run.violation("trace-invariant:" + str(res.violated),
+                          f"{res.violated} violated on a recorded execution:\n{res.error_trace[:1500]}",
+                          {"traces_batch_start": i})
+            continue
+        total_rej += [batch[j - 1] for j in sorted(rej)]
+    for t in total_rej[:10]:
+        why = diagnose(t)
+        run.violation("trace:" + prog_key(t["prog"]) + f" ;; ctx={sorted(k for k, v in t['ictx'].items() if v['t'] != 'absent')} data={t['idata']['ty']}",
+                      "recorded execution is not a behaviour of Pipeline.tla: " + why, {"trace": t})
+    run.traces_validated += len(traces) - len(total_rej)
+    run.evaluations += len(traces)
+    run.nontrivial += deep
+    run.extra["impl_to_spec"] = {"generated": n, "validated": len(traces), "rejected_by_spec": len(total_rej),
+                                 "skipped_unabstractable": skipped, "loader_rejected": rejected,
+                                 "with_3plus_completed_nodes": deep}
+    if traces:
+        run.sample({"impl_trace": traces[0]})
